@@ -6,7 +6,7 @@ side); the literal reading (sticky across the other direction's calls) is REFUTE
 Tie: S-connp correspondence (library built from /repo under ASan+UBSan vs extracted model) on the projection
 (rc, consumed, stream states, #tx, callback sequence, byte counters), and the extracted checker chk_C09 evaluated on
 the LIBRARY's own output for every generated history."""
-import json
+import json, re
 import vf, sconnp, connp_props as cp
 
 PROP = "C09"
@@ -43,6 +43,38 @@ def check(ctx):
         vf.violation(ctx, "oracle-%d" % i, {"kind": "stream-api-contract-violated-by-implementation", "suite": "S-connp", "case": c,
                                              "implementation": (out[0] if out else "")[-3000:], "oracle": "Spec/SConnp.v chk_C09 (extracted)",
                                              "theorem": "Properties_C09.v"})
+    # the byte-level contract, read off the library's output directly: a data call never reports more bytes consumed than it was given, and the
+    # connection's byte counters account for every chunk of a call that was accepted (return code DATA / DATA_OTHER / TUNNEL) and for nothing that was never offered
+    nacc = 0
+    for i, (c, o) in enumerate(zip(cases, impl)):
+        ops = c.split("\t")[3].split(",")
+        res = [sconnp.parse_op(x)[1] for x in sconnp.split_ops(o)]
+        why = None
+        offered = {"Q": 0, "S": 0}
+        accepted = {"Q": 0, "S": 0}
+        for op, r in zip(ops, res):
+            d = op[0].upper()
+            if d not in "QS" or len(r) < 2:
+                continue
+            ln = (len(op) - 1) // 2 if op[0] in "QS" else int(op[1:] or 0)
+            offered[d] += ln
+            if r[0] in (9, 5, 4):
+                accepted[d] += ln
+            if r[0] in (9, 5, 4) and r[1] > ln and why is None:      # (after ERROR / STOP the call is refused at the door and the count is the stale one)
+                why = "call %s...(%d bytes) reports %d bytes consumed" % (op[:9], ln, r[1])
+        m = re.search(r"\|\|fl=[0-9a-f]+,in=(-?\d+),out=(-?\d+)", o)
+        if m and why is None:
+            cin, cout = int(m.group(1)), int(m.group(2))
+            if not (accepted["Q"] <= cin <= offered["Q"]):
+                why = "in_data_counter=%d but %d bytes were offered on the request side, %d of them in accepted calls" % (cin, offered["Q"], accepted["Q"])
+            elif not (accepted["S"] <= cout <= offered["S"]):
+                why = "out_data_counter=%d but %d bytes were offered on the response side, %d of them in accepted calls" % (cout, offered["S"], accepted["S"])
+        if why:
+            nacc += 1
+            if nacc <= 2:
+                failing.append(i)
+                vf.violation(ctx, "bytes-%d" % i, {"kind": "consumed-count-or-byte-counter-wrong", "suite": "S-connp", "case": c, "problem": why, "implementation": sconnp.project(o, PROP)[-2500:]})
+    ctx.cov["suites"]["S-connp"]["byte_accounting_failures"] = nacc
     mm = [i for i in range(min(len(pi), len(pm))) if pi[i] != pm[i]] if not crash else []
     ctx.cov["suites"]["S-connp"]["mismatches"] = len(mm)
     ctx.cov["suites"]["S-connp"]["oracle_failures"] = len(failing)
